@@ -214,7 +214,8 @@ class DAGRunConcurrentManager(DAGRunManagerLike):
                     )
 
         else:
-            kwargs = self.ctx.input_kwargs
+            # The dict belongs to the caller and must not be changed
+            kwargs = dict(self.ctx.input_kwargs)
 
         additional_data = self._additional_data.get(node_id)
 
